@@ -231,6 +231,10 @@ class Calls(SpecRT, Strings, Loops, AnyVals, AbsSeqs):
                     st.assume(v.t >= 1)
                     st.assume(v.t < st.ghost.get('alloc0', st.alloc))
                 st.cattr[key] = v
+                if self.ex.spec_mode is None:
+                    # executable code reads a class attribute that nothing on this path has assigned yet:
+                    # its value is whatever an earlier election left there
+                    st.ghost['prior_reads'] = st.ghost.get('prior_reads', []) + [key]
                 return v
             if attr in k.attrs:
                 try:
@@ -343,6 +347,15 @@ class Calls(SpecRT, Strings, Loops, AnyVals, AbsSeqs):
             return ex.ok(None, st)
         if isinstance(ov, SClass):
             owner = ov.info
+            sc = self.schema(owner.qualname)
+            if sc is not None and sc.cattrs.get(attr) == 'int' and isinstance(v, SAny):
+                # an option value stored where an int is expected: obligation that it is one
+                caller = ex.cur_func.qualname if ex.cur_func else '?'
+                ex.col.add('PRE', ex.cur_props or [], caller, 'int-valued:%s' % attr,
+                           'the value stored in %s.%s is an int' % (owner.name, attr), self.assumptions(st),
+                           self.AnyT.is_i(v.t))
+                st.assume(self.AnyT.is_i(v.t))
+                v = SInt(self.AnyT.iv(v.t))
             st.cattr[(owner.qualname, attr)] = v
             w = st.ghost.setdefault('cattr_writes', [])
             st.ghost['cattr_writes'] = w + [(owner.qualname, attr)]
@@ -489,6 +502,13 @@ class Calls(SpecRT, Strings, Loops, AnyVals, AbsSeqs):
             return ex.B.call(fv, args, kwargs, st, fr, node)
         if isinstance(fv, SExcClass):
             if fv.name == 'Fraction':
+                # A-lib: Fraction(a, b) is the exact rational a/b ; Fraction(a, None) is a
+                if len(args) == 2 and isinstance(args[0], SInt) and isinstance(args[1], SInt):
+                    a, b = args
+                    return ex.split(b.t == 0, st, lambda s: ex.exc('ZeroDivisionError', s),
+                                    lambda s: ex.ok(SVal(z3.ToReal(a.t) / z3.ToReal(b.t)), s))
+                if len(args) == 2 and isinstance(args[0], SInt) and isinstance(args[1], SNone):
+                    return ex.ok(SVal(z3.ToReal(args[0].t)), st)
                 raise Unsupported('Fraction construction')
             return ex.ok(SRef('exc:' + fv.name, fresh_int('exc')), st)
         if isinstance(fv, SLambda):
